@@ -171,8 +171,8 @@ theorem insert_pos (p : Params K) (pv : p.Valid) (sw : StrictWeak p.lt) (t : Tre
       simp only at hres
       obtain ⟨_, hpos⟩ := insertDescend_pos p k v h0 r0 1 1 hs r hr
       rw [insRank_eq_lbIdx p sw k h0 r0 1 1 hs hsort hsep] at hpos
-      have hshp := insertDescend_shape p pv k v h0 r0 1 1 (by have := pv.leaf4; simp [Params.leafMin]; omega)
-        (by have := pv.inner4; simp [Params.innerMin]; omega) hs r hr
+      have hshp := insertDescend_shape p pv k v h0 r0 1 1 (by have := pv.leaf4; simp [Params.leafMin, Gen.leafSlotmin]; omega)
+        (by have := pv.inner4; simp [Params.innerMin, Gen.innerSlotmin]; omega) hs r hr
       cases hsp : r.split with
       | none =>
         rw [hsp] at hres hpos
